@@ -65,9 +65,17 @@ def lake_build(ctx, targets):
     return True
 
 
+# property theorems may be spread over several files (statements added later live in their own module)
+PROP_MODULES = {"C07": ["C07", "C07impl"], "C02": ["C02", "C02rec"]}
+
+
+def modules_for(prop):
+    return PROP_MODULES.get(prop, [prop])
+
+
 def prop_sources(prop):
-    """the property file and every project file it (transitively) imports"""
-    seen, todo = [], [os.path.join(LEAN, "MhlProps", prop + ".lean")]
+    """the property files and every project file they (transitively) import"""
+    seen, todo = [], [os.path.join(LEAN, "MhlProps", m + ".lean") for m in modules_for(prop)]
     while todo:
         f = todo.pop()
         if f in seen or not os.path.exists(f):
@@ -92,8 +100,7 @@ def audit(ctx):
             if FORBIDDEN.search(line):
                 ok = False
                 ctx.broken.append(f"forbidden construct in {os.path.relpath(f, LEAN)}: {line.strip()[:120]}")
-    pf = os.path.join(LEAN, "MhlProps", ctx.prop + ".lean")
-    src = strip_comments(open(pf, encoding="utf-8").read())
+    src = "\n".join(strip_comments(open(os.path.join(LEAN, "MhlProps", m + ".lean"), encoding="utf-8").read()) + "\n" for m in modules_for(ctx.prop))
     # qualify every theorem by the namespaces open at its position
     names = []
     stack = []
@@ -118,7 +125,7 @@ def audit(ctx):
     tmp = os.path.join(LEAN, ".lake", f"audit_{ctx.prop}_{os.getpid()}.lean")
     os.makedirs(os.path.dirname(tmp), exist_ok=True)
     with open(tmp, "w") as f:
-        f.write(f"import MhlProps.{ctx.prop}\n" + "".join(f"#print axioms {n}\n" for n in names))
+        f.write("".join(f"import MhlProps.{m}\n" for m in modules_for(ctx.prop)) + "".join(f"#print axioms {n}\n" for n in names))
     rc, out = sh(["lake", "env", "lean", tmp], cwd=LEAN, timeout=1200)
     os.remove(tmp)
     if rc != 0:
